@@ -15,7 +15,7 @@ def plan(tier, seed):
     n = 2 if tier == "quick" else 3
 
     def leaves():
-        return bounded.run_native("c06_es", {"max_leaves": n, "known": bounded.known_for("C06", "C06-B")})
+        return bounded.run_native("c06_es", {"max_leaves": n, "partial_every": 3 if tier == "quick" else 1, "known": bounded.known_for("C06", "C06-B")})
     pl.bounded = [("C06-B/leaf clauses of the whole result = leaves predicted from the tree; plain JSON; history independent", leaves)]
     pl.functions = ["luqum.elasticsearch.tree.AbstractEItem." + f for f in ("__init__", "json", "field", "fuzziness", "method", "_value_has_wildcard_char", "_is_analyzed")] + \
                    ["luqum.elasticsearch.tree.EWord.json", "luqum.elasticsearch.tree.EPhrase.__init__", "luqum.elasticsearch.tree.EPhrase.slop",
